@@ -78,6 +78,14 @@ def submit_defaults():
     return out
 
 
+def thread_exc(e):
+    """exception a finished RaisingThread entity died with (e.exc is filled in by the thread itself
+    on its way out; at capture time it may not have got there yet)"""
+    th = getattr(e, "thread", None)
+    ex = getattr(th, "_exception", None) if th is not None else None
+    return type(ex).__name__ if ex is not None else None
+
+
 def snapshot(ctl, op_index, op):
     """state right after a shutdown / exit operation returned or raised (read without points)"""
     return {"op_index": op_index, "op": list(op), "step": len(ctl.log),
@@ -236,6 +244,7 @@ def run_case(case):
         ctl.stopped = False
         ctl.verdict = None
         ctl.crash = dict(sess["crash"]) if sess.get("crash") else None
+        ctl.iofault = case.get("iofault")
         ctl.session_start = len(ctl.log)
         m = ctl.register("M")
 
@@ -251,20 +260,38 @@ def run_case(case):
             finally:
                 ctl.finish(m)
 
+        final = {}
+
+        def capture(final=final):
+            by_call = {}
+            for f in ctl.futures:
+                cid = getattr(f, "_call_id", None)
+                if cid is not None:
+                    by_call[str(cid)] = f
+            final.update({
+                "dir": dir_snapshot(cache_dir),
+                "futures_by_call": {str(getattr(f, "_call_id", 0) or f.fid): f.obs() for f in ctl.futures},
+                "futures": {str(f.fid): f.obs() for f in ctl.futures},
+                "values": {str(f.fid): value_repr(f) for f in ctl.futures},
+                "call_futures": {k: f.obs() for k, f in by_call.items()},
+                "call_values": {k: value_repr(f) for k, f in by_call.items()},
+                "ents": {n: [e.state, e.exc if e.exc is not None else thread_exc(e)] for n, e in ctl.ents.items()},
+                "procs": {p.name: {"alive": p.alive(), "script": p.script, "cwd": p.cwd, "argv": p.args} for p in ctl.procs},
+                "queues": [{"qid": q.qid, "unf": q.unf, "items": [sim.item_desc(i) for i in q.items]} for q in ctl.queues],
+                "parked": {k: list(v) for k, v in ctl.parked_ops().items()},
+            })
+
+        ctl.capture = capture
         t = threading.Thread(target=mbody, daemon=True)
         t.start()
         ctl.run()
+        if not final:
+            capture()
         sess_out.append({"verdict": ctl.verdict, "outcomes": outcomes, "snaps": snaps, "steps": len(ctl.log),
-                         "dir": dir_snapshot(cache_dir),
-                         "futures": {str(getattr(f, "_call_id", 0) or f.fid): f.obs() for f in ctl.futures}})
+                         "dir": final["dir"], "futures": final["futures_by_call"]})
         if si < len(sessions) - 1:
             ctl.kill_all()
     last = sess_out[-1]
-    by_call = {}
-    for f in ctl.futures:
-        cid = getattr(f, "_call_id", None)
-        if cid is not None:
-            by_call[str(cid)] = f
     res = {
         "verdict": last["verdict"],
         "trace": [[en, pick, list(lab)] for en, pick, lab in ctl.log],
@@ -273,16 +300,16 @@ def run_case(case):
         "sessions": sess_out,
         "passed_res": {str(i): d for i, d in passed.items()},
         "submit_defaults": submit_defaults(),
-        "futures": {str(f.fid): f.obs() for f in ctl.futures},
-        "values": {str(f.fid): value_repr(f) for f in ctl.futures},
-        "call_futures": {k: f.obs() for k, f in by_call.items()},
-        "call_values": {k: value_repr(f) for k, f in by_call.items()},
-        "ents": {n: [e.state, e.exc] for n, e in ctl.ents.items()},
-        "procs": {p.name: {"alive": p.alive(), "script": p.script, "cwd": p.cwd, "argv": p.args} for p in ctl.procs},
-        "queues": [{"qid": q.qid, "unf": q.unf, "items": [sim.item_desc(i) for i in q.items]} for q in ctl.queues],
-        "parked": {k: list(v) for k, v in ctl.parked_ops().items()},
-        "dir": dir_snapshot(cache_dir),
-        "install_error": ctl.extra.get("install_error"),
+        "futures": final["futures"],
+        "values": final["values"],
+        "call_futures": final["call_futures"],
+        "call_values": final["call_values"],
+        "ents": final["ents"],
+        "procs": final["procs"],
+        "queues": final["queues"],
+        "parked": final["parked"],
+        "dir": final["dir"],
+        "install_error": ctl.extra.get("install_error") or ctl.extra.get("capture_error"),
         "graphs": drawn_graphs(),
     }
     shutil.rmtree(cache_dir, ignore_errors=True)
